@@ -132,6 +132,7 @@ var c04Core = [][2]string{
 	{"WalletDataV4", "wallet.DataV4"},
 	{"WalletDataHighloadV2", "wallet.DataHighloadV2"},
 	{"WalletDataV5R1", "wallet.DataV5R1"},
+	{"AddressWithWorkchain", "tlb.AddressWithWorkchain"},
 }
 
 // the Go type is found from the descriptor: the case carries the schema name,
@@ -300,6 +301,30 @@ func genC04(c *Ctx) {
 		}
 		for i := 0; i < n; i++ {
 			c04Spec(c, "core", p[0], ct, c03RandValue(ct, c.R))
+		}
+	}
+	// the 288-bit dictionary key workchain:int32 address:bits256 at the workchain boundaries
+	// (the Go field is an int8: a negative workchain must be sign-extended to 32 bits)
+	if ct := c03Types["tlb.AddressWithWorkchain"]; ct != nil && ct.class == tlbdesc.ClassDescribed {
+		for _, wc := range []int64{-1, -128, -2, 127, 0, 1} {
+			for k := 0; k < 3; k++ {
+				a := c04AddrShape(c, []int{0, 1, 4}[k])
+				var ab bytes.Buffer
+				for _, b := range a {
+					for j := 7; j >= 0; j-- {
+						ab.WriteByte('0' + (b>>uint(j))&1)
+					}
+				}
+				v := sx.L(sx.A("struct"), sx.L(sx.A("z"), sx.Z(wc)), sx.L(sx.A("bits"), sx.Bits(ab.String())))
+				c04Spec(c, "boundary", "AddressWithWorkchain", ct, v)
+				// reference on the implementation: 32-bit two's complement workchain, then the 256 address bits
+				kc := boc.NewCell()
+				key := tlb.AddressWithWorkchain{Workchain: int8(wc), Address: tlb.Bits256(a)}
+				want := fmt.Sprintf("%032b", uint32(int32(wc))) + ab.String()
+				if err := tlb.Marshal(kc, key); err != nil || c04BitsOf(kc) != want {
+					c.Fail("c04.spec", v, "address-key-bits", fmt.Sprintf("tlb.AddressWithWorkchain with workchain %d is not encoded as workchain:int32 address:bits256", wc))
+				}
+			}
 		}
 	}
 	// 2b. the same structures after the read cursors of their bit strings / cells were
